@@ -397,6 +397,9 @@ where
 
         assert_eq!(outputs.len(), repliers.len());
 
+        #[cfg(zcash_librustzcash_verif)]
+        crate::verif_hooks::event("batch_start", outputs.len() as u64, 0);
+
         let decryption_results = Dec::batch_decrypt(&tags, &ivks, &outputs);
         for (decryption_result, OutputReplier(replier)) in decryption_results.zip(repliers) {
             // If `decryption_result` is `None` then we will just drop `replier`,
@@ -407,12 +410,18 @@ where
                     value,
                 };
 
+                #[cfg(zcash_librustzcash_verif)]
+                crate::verif_hooks::event("batch_send", replier.output_index as u64, 0);
+
                 if replier.value.send(result).is_err() {
                     tracing::debug!("BatchRunner was dropped before batch finished");
                     break;
                 }
             }
         }
+
+        #[cfg(zcash_librustzcash_verif)]
+        crate::verif_hooks::event("batch_end", 0, 0);
     }
 }
 
@@ -602,6 +611,8 @@ where
         if !self.acc.is_empty() {
             let mut batch = Batch::new(self.acc.tags.clone(), self.acc.ivks.clone());
             mem::swap(&mut batch, &mut self.acc);
+            #[cfg(zcash_librustzcash_verif)]
+            crate::verif_hooks::event("batch_flush", batch.outputs.len() as u64, 0);
             self.running_tasks.run_task(batch);
         }
     }
